@@ -420,7 +420,7 @@ Proof.
 Qed.
 
 Lemma level_lt_fuel f : (level f < FUEL)%nat.
-Proof. destruct f; cbn; lia. Qed.
+Proof. unfold FUEL. destruct f; cbn [level]; lia. Qed.
 
 (* one step: good caches stay good, the output is the single-mode answer *)
 Lemma step_with_ok keyed : keys_sound keyed -> forall st o,
